@@ -376,12 +376,12 @@ theorem step_invS {c : Cfg} {s t : St} {a : Act} (h : step c s a = some t) (hi :
 
 /-! ### panic reporting -/
 structure InvP (s : St) : Prop where
-  han : ∀ jv, s.panicLog.count jv = wsum (panJV jv) s.workers + s.handlerLog.count jv
+  han : ∀ jv, s.panicLog.count jv = wsum (panJV jv) s.workers + s.handlerLog.count jv + s.unreported.count jv
   pan : ∀ j, (s.panicLog.map Prod.fst).count j ≤ s.finished.count j
 
 theorem invP_congr {s s' : St} (hi : InvP s) (h1 : s'.panicLog = s.panicLog) (h2 : s'.handlerLog = s.handlerLog)
-    (h3 : s'.workers = s.workers) (h4 : s'.finished = s.finished) : InvP s' :=
-  ⟨by rw [h1, h2, h3]; exact hi.han, by rw [h1, h4]; exact hi.pan⟩
+    (h3 : s'.workers = s.workers) (h4 : s'.finished = s.finished) (h5 : s'.unreported = s.unreported := by rfl) : InvP s' :=
+  ⟨by rw [h1, h2, h3, h5]; exact hi.han, by rw [h1, h4]; exact hi.pan⟩
 
 theorem genWorker_invP {c : Cfg} {s : St} (m : Nat) (h : InvP s) : InvP (genWorker c s m) := by
   unfold genWorker
@@ -415,11 +415,8 @@ theorem stepPool_invP {c : Cfg} {s t : St} {a : Act} (h : stepPool c s a = some 
     | exact invP_congr (genWorker_invP _ hi) rfl rfl rfl rfl
 
 theorem stepSub_invP {c : Cfg} {s t : St} {a : Act} (h : stepSub c s a = some t) (hi : InvP s) : InvP t := by
-  cases a <;> simp only [stepSub] at h <;> step_split h
-  all_goals first
-    | exact invP_congr hi rfl rfl rfl rfl
-    | (have hf := afterSchedule_frame { s with token := true } ‹Nat› ‹Sub› ‹Res›
-       exact invP_congr hi hf.2.2.2.2.2.2.2.2.1 hf.2.2.2.2.2.2.2.2.2.1 hf.2.2.1 hf.2.2.2.2.2.2.1)
+  cases a <;> simp only [stepSub, afterSchedule] at h <;> step_split h
+  all_goals exact invP_congr hi rfl rfl rfl rfl
 
 theorem step_invP {c : Cfg} {s t : St} {a : Act} (h : step c s a = some t) (hi : InvP s) : InvP t := by
   cases a <;> simp only [step] at h <;>
